@@ -110,6 +110,9 @@ def run_scenario(spec: dict) -> dict:
 
         def step(self, observation):
             def body():
+                if "first" not in result:
+                    result["first"] = {"steps_before": state["steps"], "clock": tc.time(), "raw": sched.now,
+                                       "buf": list(state["user"].get_data()) if state.get("user") is not None and spec.get("load_from") else None}
                 state["steps"] += 1
                 state["collector"].collect(state["steps"])
             cb("a.step", step_dur, body)
@@ -160,10 +163,18 @@ def run_scenario(spec: dict) -> dict:
                 state["trains"] += 1
             cb("t.train", train_dur, body)
 
+        def on_data_users_attached(self):
+            state["user"] = self.get_data_user("buf")
+            state["trainer"] = self
+
         def save_state(self, path):
             super().save_state(path)
             (path / "trains").write_text(str(state["trains"]))
             S.mark("saved", "trainer", state["trains"])
+
+        def load_state(self, path):
+            super().load_state(path)
+            state["trains"] = int((path / "trains").read_text())
 
     servers = []
 
@@ -233,7 +244,9 @@ def run_scenario(spec: dict) -> dict:
                     "buf_ok": buf == list(range(max(1, state["steps"] - len(buf) + 1), state["steps"] + 1)),
                     "agent_steps": int((Path(p) / "interaction" / "agent" / "steps").read_text()),
                     "trains_now": state["trains"], "trainer_trains": int((Path(p) / "trainers" / "t" / "trains").read_text()),
-                    "clock_saved": pickle.load(open(Path(p) / "time.pkl", "rb"))["scaled_anchor_time"], "clock_now": tc.time()}
+                    "clock_saved": pickle.load(open(Path(p) / "time.pkl", "rb"))["scaled_anchor_time"], "clock_now": tc.time(),
+                    "buf": buf, "marker": repr(state["trainer"]._previous_training_time) if state.get("trainer") is not None else None,
+                    "marker_file": (Path(p) / "trainers" / "t" / "previous_training_time").read_text()}
         except Exception as e:  # noqa: BLE001
             info = {"readback_error": f"{type(e).__name__}: {e}"}
         S.mark("save_e", Path(p).name, tc.is_paused(), info)
@@ -257,8 +270,19 @@ def run_scenario(spec: dict) -> dict:
 
     old_delay = PThread.LOOP_DELAY
     PThread.LOOP_DELAY = spec.get("loop_delay", 0.001)
-    tmp = tempfile.mkdtemp(prefix="pamiq_sim_")
+    tmp = spec.get("states_root") or tempfile.mkdtemp(prefix="pamiq_sim_")
     result: dict = {"outcome": None, "timeline": timeline}
+    orig_load = StateStore.load_state
+
+    def logged_load(self, path):
+        orig_load(self, path)
+        u = state.get("user")
+        result["loaded"] = {"steps": state["steps"], "trains": state["trains"], "clock": tc.time(), "raw": sched.now,
+                            "buf": list(u.get_data()) if u is not None else None, "len": len(u) if u is not None else None,
+                            "count_all": u.count_data_added_since(float("-inf")) if u is not None else None,
+                            "marker": repr(state["trainer"]._previous_training_time) if state.get("trainer") is not None else None}
+
+    StateStore.load_state = logged_load
     done = {"launch": False}
 
     # name the events by role once the objects exist (ThreadController / ThreadStatus are created in launch)
@@ -319,7 +343,9 @@ def run_scenario(spec: dict) -> dict:
     def main():
         ct = S.Thread(target=client, name="client")
         ct.start()
-        cfg = dict(states_dir=Path(tmp) / "states", save_state_condition=save_condition,
+        cfg = dict(states_dir=Path(tmp) / ("states2" if spec.get("load_from") else "states"),
+                   saved_state_path=(Path(tmp) / "states" / spec["load_from"]) if spec.get("load_from") else None,
+                   save_state_condition=save_condition,
                    timeout_for_all_threads_pause=spec.get("pause_timeout", 60.0),
                    max_attempts_to_pause_all_threads=spec.get("attempts", 3),
                    max_uptime=spec.get("max_uptime", float("inf")),
@@ -360,6 +386,7 @@ def run_scenario(spec: dict) -> dict:
     finally:
         ptime.pause, ptime.resume, ptime.set_time_scale = orig_pause, orig_resume, orig_scale
         StateStore.save_state = orig_save
+        StateStore.load_state = orig_load
         control_mod.ControlThread.is_max_uptime_reached = orig_uptime
         control_mod.ControlThread.on_start = orig_ctl_start
         tcm.ThreadController.__init__, tcm.ThreadStatus.__init__ = orig_tc_init, orig_ts_init
@@ -372,7 +399,8 @@ def run_scenario(spec: dict) -> dict:
         except Exception:  # noqa: BLE001
             pass
         states = sorted(p.name for p in (Path(tmp) / "states").glob("*.state")) if (Path(tmp) / "states").exists() else []
-        shutil.rmtree(tmp, ignore_errors=True)
+        if not spec.get("states_root"):
+            shutil.rmtree(tmp, ignore_errors=True)
     result.update({"trace": trace, "deadlock": None if sched.deadlock is None else str(sched.deadlock), "vtime": sched.now,
                    "choices": sched.choices, "states": states, "steps": state["steps"], "trains": state["trains"]})
     return result
